@@ -261,6 +261,7 @@ func runUnit(w *World, pk *Pkg, c *Contract) (res *UnitResult) {
 			}
 		}
 	}
+	e.hints(final, c.Hints)
 	for i, en := range c.Ensures {
 		e.spec++
 		v := e.ev(en.Expr, final)
